@@ -526,6 +526,14 @@ where
         Self::Commitment: 'a,
     {
         let check_time = start_timer!(|| "Checking evaluations");
+        // One witness per variable
+        if proof.w.len() != vk.num_vars {
+            return Err(Error::IncorrectInputLength(ark_std::format!(
+                "Expected a proof with {:} witnesses. Instead, there are {:}",
+                vk.num_vars,
+                proof.w.len()
+            )));
+        }
         // Accumulate commitments and values
         let (combined_comm, combined_value) =
             Marlin::<E, P, Self>::accumulate_commitments_and_values(
